@@ -381,6 +381,48 @@ def nat_runs_split(params, model):
     return {"ok": ok, "detail": f"L={c1.subruns} R={c2.subruns} b={b} t={t}"}
 
 
+def sym_super_split(nruns):
+    """Chunks of `nruns` DIFFERENT runs glued together (allow_superrun, as Plugin.iter does with the input of a
+    first-level superrun plugin): run_id is None and the `superrun` annotation lists the runs.  Splitting at any time
+    and concatenating the halves again must give back the annotation."""
+    import strax
+
+    bnds = [fresh_int(f"B{i}", 0, H.T_MAX) for i in range(nruns + 1)]
+    for i in range(nruns):
+        assume(bnds[i + 1] > bnds[i])
+    names = [f"r{i}" for i in range(nruns)]
+    parts = [mk_chunk([], [], bnds[i], bnds[i + 1], run_id=names[i]) for i in range(nruns)]
+    whole = strax.Chunk.concatenate(parts, allow_superrun=True)
+    t = fresh_int("t", 0, H.T_MAX)
+    c1, c2 = whole.split(t)
+    back = strax.Chunk.concatenate([c1, c2], allow_superrun=True)
+    prove(sand(back.start == bnds[0], back.end == bnds[-1]), "super_split:range not restored")
+    prove(list(back.superrun) == names, f"super_split:runs lost / reordered: {list(back.superrun)}")
+    for i, nm in enumerate(names):
+        prove(sand(back.superrun[nm]["start"] == bnds[i], back.superrun[nm]["end"] == bnds[i + 1]),
+              "super_split:span of a run not restored")
+    return "ok"
+
+
+def nat_super_split(params, model):
+    import strax
+
+    nr = params["nruns"]
+    b = [model[f"B{i}"] for i in range(nr + 1)]
+    names = [f"r{i}" for i in range(nr)]
+    dt = np.dtype([("time", np.int64), ("endtime", np.int64)])
+    parts = [strax.Chunk(start=b[i], end=b[i + 1], data=np.zeros(0, dt), dtype=dt, data_type="x", data_kind="k",
+                         run_id=names[i]) for i in range(nr)]
+    try:
+        whole = strax.Chunk.concatenate(parts, allow_superrun=True)
+        c1, c2 = whole.split(model["t"])
+        back = strax.Chunk.concatenate([c1, c2], allow_superrun=True)
+    except Exception as e:
+        return {"ok": False, "label": "super_split:raised", "detail": f"raised {type(e).__name__}: {str(e)[:200]}"}
+    want = {names[i]: {"start": b[i], "end": b[i + 1]} for i in range(nr)}
+    return {"ok": back.superrun == want, "detail": f"back={back.superrun} want={want}"}
+
+
 # ---------------------------------------------------------------------------- rechunker
 def _tsm(rows):
     """A target_size_mb that makes Rechunker.get_splits assume exactly `rows` rows per chunk."""
@@ -502,6 +544,9 @@ OBLIGATIONS = [
        nat_concat_mismatch, setup=_setup),
     Ob("merge", sym_merge, lambda tier: [dict(n=n, variant=v) for n in (0, 1, 2) for v in ("ok", "len", "kind", "run")],
        nat_merge, setup=_setup, doc="accept iff equal length/range/kind/run; later array wins"),
+    Ob("super_split", sym_super_split, lambda tier: [dict(nruns=n) for n in ((1, 2, 3, 4) if tier == "quick" else (1, 2, 3, 4, 5))],
+       nat_super_split, setup=_setup, witnesses=1,
+       doc="chunks of several runs glued with allow_superrun: split anywhere + concatenate restores the superrun annotation"),
     Ob("runs_split", sym_runs_split, lambda tier: [dict(nruns=n) for n in ((1, 2) if tier == "quick" else (1, 2, 3))],
        nat_runs_split, setup=_setup, doc="sub/superrun spans partition at t; concatenate restores"),
     Ob("rechunk", sym_rechunk, _g_rechunk, nat_rechunk, setup=_setup,
